@@ -84,6 +84,8 @@ def evaluate(x, M, shift=None, volume=True, deep=True):
     T, N = x.shape[:2]
     species = ['Li'] * N
     x_in = x.copy()
+    if int(abs(x[..., 0].sum()) * 1e6) % 3 == 1:
+        x_in = np.asfortranarray(x_in)  # the memory layout of the caller's array is free
     traj = concretise.make_trajectory(x_in, species, M, time_step=1e-15)
     try:
         p1 = np.array(traj.positions)
